@@ -1,4 +1,5 @@
 import Hyeong.Lemmas.Eof
+import Hyeong.Lemmas.CopyLevels
 import Hyeong.Props.C02
 /-!
 # C14 — Unicode text passes through a program unchanged
@@ -9,7 +10,7 @@ Characters are Lean `Char`s = Unicode scalar values (U+0000 … U+10FFFF without
 UTF-8 byte level is Rust std and is covered by the tie on real pipes.  Property theorems only.
 -/
 namespace HyE.C14
-open HyE HyN
+open HyE HyN HyC
 
 /-- a character read from standard input and written to an output stack comes out as itself: the
 number it is read as renders as exactly that character, and adding it to zero (what `항` does with
@@ -40,6 +41,47 @@ theorem catN_levels (budget level : Nat) (input : List Char) (k : Nat)
     rcases hc with h | ⟨_, h⟩ <;> subst h <;> decide
   exact HyE.C02.opt_equiv budget level (catN k) hk input code size r h
 
+/-- Copy until end of input: `cat` (a loop with one character of look-ahead; the end of the input is
+recognised because it reads as NaN) halts normally having written exactly the input to standard output
+and nothing to standard error — for every non-empty input text: every scalar value incl. U+0000, any
+line structure, a missing final line break, empty lines, lines of any length. Proved by a loop invariant
+at the print command over the not yet consumed input. (On the empty input a loop-until-end copier cannot
+be silent in this language — DESIGN §5 C14 — and `cat` prints the NaN text.) -/
+theorem cat_correct (input : List Char) (hne : input ≠ []) :
+    ∃ n, (runN cat n (initCfg input)).2 = .ended ∧ (runN cat n (initCfg input)).1.m.2.out = input ∧
+      (runN cat n (initCfg input)).1.m.2.err = [] :=
+  HyE.cat_correct input hne
+
+/-- Reverse: `revN k` halts normally having written the first `k+1` characters of the input in reverse
+order (the characters may span several lines) -/
+theorem revN_correct (input : List Char) (k : Nat) (hk : k + 1 ≤ input.length) :
+    (runN (revN k) (2 * k + 3) (initCfg input)).2 = .ended ∧
+    (runN (revN k) (2 * k + 3) (initCfg input)).1.m.2.out = (input.take (k + 1)).reverse ∧
+    (runN (revN k) (2 * k + 3) (initCfg input)).1.m.2.err = [] :=
+  HyE.revN_correct input k hk
+
+theorem cat_shape : (∀ c ∈ cat, c.kind ≤ 5) ∧ (∀ c ∈ cat, 1 ≤ c.hangul) ∧ (∀ c ∈ cat, AreaOk c.area) := by
+  refine ⟨by decide, by decide, ?_⟩
+  intro c hc
+  simp only [cat, List.mem_cons, List.mem_nil_iff, or_false] at hc
+  rcases hc with h | h | h | h | h | h | h | h | h | h | h | h | h | h | h | h <;> subst h <;> simp [AreaOk]
+
+/-- Identically at every optimisation level of the interpreter and when compiled at every level: whatever
+`optimize` returns for `cat` (levels 1, 2), (a) running it as `run` does and (b) the executable built from
+it halt normally with standard output = the input and empty standard error; (c) the same for the level-0
+executable. By C02's `opt_equiv` and C03's `compiled_equiv`/`compiled_level0`. -/
+theorem cat_all_levels (input : List Char) (hne : input ≠ []) :
+    (∀ (budget level : Nat) (code : List Cmd) (size : Nat) (r : Opt2 NumI),
+      HyE.optimize (N := NumI) budget level cat ⟨splitLines input, [], []⟩ = .ok (code, size, r) →
+      (∃ n, (runN code n ⟨r.m, r.idx⟩).2 = .ended ∧ (runN code n ⟨r.m, r.idx⟩).1.m.2.out = input ∧
+        (runN code n ⟨r.m, r.idx⟩).1.m.2.err = []) ∧
+      (1 ≤ level → ∃ k w, (compile level size (code.take r.idx) r.m.1 (List.range size) r.m.2.out r.m.2.err (code.drop r.idx)).run input k =
+        some (w, .ended) ∧ w.out = input ∧ w.err = [])) ∧
+    (∃ k w, (compile 0 0 [] (St.init : St NumI) (List.range 0) [] [] cat).run input k = some (w, .ended) ∧ w.out = input ∧ w.err = []) := by
+  have hc : Copies cat input input := HyE.cat_correct input hne
+  refine ⟨fun budget level code size r ho => ⟨hc.levels cat_shape.1 budget level code size r ho,
+    fun hl => hc.compiled cat_shape.1 cat_shape.2.1 cat_shape.2.2 budget level hl code size r ho⟩, hc.compiled0 cat_shape.2.2⟩
+
 /-- End of input is seen by the program as NaN, and only then. -/
 theorem eof_iff_nan (s : St NumI) (w : World) (hlines : ∀ l ∈ w.stdin, l ≠ [])
     (hst : ∀ x ∈ s.stacks 0, isNan x = false) (x : NumI) (m' : M NumI)
@@ -57,5 +99,9 @@ theorem input_lines (input : List Char) :
 /-- non-vacuity: astral character, NUL, empty line, no final newline -/
 example : (runN (catN 5) 6 (initCfg [Char.ofNat 0x1F600, Char.ofNat 0, '\n', '\n', 'x'])).1.m.2.out =
     [Char.ofNat 0x1F600, Char.ofNat 0, '\n', '\n', 'x'] := by decide
+
+/-- non-vacuity of `cat_correct`: two lines, the second without line break -/
+example : (runN cat 60 (initCfg ['a', '\n', 'b'])).2 = .ended ∧ (runN cat 60 (initCfg ['a', '\n', 'b'])).1.m.2.out = ['a', '\n', 'b'] := by
+  decide
 
 end HyE.C14
